@@ -90,6 +90,7 @@ func verifStub_server_Server_Serve(s *server.Server[handler.State], ln net.Liste
 }
 
 func VerifC15_Wiring() {
+	verifrt.NativeUnsupported("listenTCP, netutil.LimitListener and Server.Serve are replaced by engine-injected stubs")
 	outside := &verifstub.Conn{Remote: &net.TCPAddr{IP: net.IP{10, 0, 0, 1}}}
 	inside := &verifstub.Conn{Remote: &net.TCPAddr{IP: net.IP{127, 0, 0, 5}}}
 	verifWiring.raw = &verifRawListener{conns: []*verifstub.Conn{outside, inside}}
